@@ -178,6 +178,7 @@ pub fn crate_prelude(no_std: bool, serde: bool, arbitrary: bool) -> String {
     o.push_str("pub struct Point { pub x: i16, pub y: i16 }\n");
     o.push_str("impl ::core::fmt::Display for Point { fn fmt(&self, f: &mut ::core::fmt::Formatter<'_>) -> ::core::fmt::Result { write!(f, \"{};{}\", self.x, self.y) } }\n");
     o.push_str("#[derive(Debug, Clone, PartialEq, Eq)]\npub struct PointParseError;\n");
+    o.push_str("impl Point { pub fn from_str(s: &str) -> Result<Point, PointParseError> { let mut it = s.split(','); let x = it.next().ok_or(PointParseError)?.parse::<i16>().map_err(|_| PointParseError)?; let y = it.next().ok_or(PointParseError)?.parse::<i16>().map_err(|_| PointParseError)?; Ok(Point { x, y }) } }\n");
     o.push_str("impl ::core::str::FromStr for Point { type Err = PointParseError; fn from_str(s: &str) -> Result<Self, Self::Err> { let mut it = s.split(';'); let x = it.next().ok_or(PointParseError)?.parse::<i16>().map_err(|_| PointParseError)?; let y = it.next().ok_or(PointParseError)?.parse::<i16>().map_err(|_| PointParseError)?; Ok(Point { x, y }) } }\n");
     if arbitrary {
         o.push_str("impl<'a> ::arbitrary::Arbitrary<'a> for Point { fn arbitrary(u: &mut ::arbitrary::Unstructured<'a>) -> ::arbitrary::Result<Self> { Ok(Point { x: u.arbitrary()?, y: u.arbitrary()? }) } }\n");
@@ -687,6 +688,31 @@ pub fn c08_units(seed: u64, thorough: bool) -> Vec<Unit> {
 
     // --- seed-dependent part: proptest-generated declarations of the documented grammar (accept side)
     //     and the same declarations with exactly one injected fault (reject side)
+    // the path form of `regex` needs the feature as much as the literal form (a user type with `is_match`
+    // stands in for the regex crate, which a crate without the feature need not depend on)
+    {
+        let pre = "pub struct Re; impl Re { pub fn is_match(&self, s: &str) -> bool { !s.is_empty() } }\npub static MY_RE: Re = Re;\n";
+        for (cls, features, expect, errs) in [
+            ("feature:regex-path:without", &[][..], Expect::Reject, &["feature `regex`"][..]),
+            ("feature:regex-path:with-other-features", &["serde", "arbitrary", "new_unchecked"][..], Expect::Reject, &["feature `regex`"][..]),
+            ("feature:regex-path:with", &["regex"][..], Expect::Accept, &[][..]),
+        ] {
+            let (source, decl) = raw_unit(s_, "validate(regex = MY_RE)", "pub struct T(String);", pre);
+            out.push(Unit {
+                id: String::new(),
+                class: cls.to_string(),
+                features: feats(features),
+                source,
+                expect,
+                expect_errors: errs.iter().map(|s| s.to_string()).collect(),
+                tests_must_fail: vec![],
+                tests_must_pass: vec![],
+                decl,
+                nontrivial: true,
+            });
+        }
+    }
+
     let n_random = if thorough { 500 } else { 90 };
     let rnd = catalogue::finalize(crate::random::random_decls(seed ^ 0xC08, n_random), "x");
     for (i, d) in rnd.iter().enumerate() {
